@@ -35,7 +35,51 @@ use std::collections::HashMap;
 
 struct Cb;
 
+/// Appends the analysis shims (KFACTS_SHIMS: plain-loop renderings of std's iterator drivers, generic over the iterator
+/// and the closure) to the root file of the analysed crate, in memory only: they are type-checked and lowered to MIR with
+/// the crate, share its type table, and are reported under `__kverif_shims::`.  Nothing on disk is touched.
+struct ShimLoader {
+    root: std::path::PathBuf,
+    shims: String,
+}
+
+impl rustc_span::source_map::FileLoader for ShimLoader {
+    fn file_exists(&self, path: &std::path::Path) -> bool {
+        path.exists()
+    }
+    fn read_file(&self, path: &std::path::Path) -> std::io::Result<String> {
+        let mut text = std::fs::read_to_string(path)?;
+        let same = match (std::fs::canonicalize(path), std::fs::canonicalize(&self.root)) {
+            (Ok(a), Ok(b)) => a == b,
+            _ => false,
+        };
+        if same {
+            text.push_str("\n");
+            text.push_str(&self.shims);
+        }
+        Ok(text)
+    }
+    fn read_binary_file(&self, path: &std::path::Path) -> std::io::Result<std::sync::Arc<[u8]>> {
+        Ok(std::fs::read(path)?.into())
+    }
+    fn current_directory(&self) -> std::io::Result<std::path::PathBuf> {
+        std::env::current_dir()
+    }
+}
+
 impl rustc_driver::Callbacks for Cb {
+    fn config(&mut self, config: &mut rustc_interface::interface::Config) {
+        let want = std::env::var("KFACTS_CRATE").unwrap_or_else(|_| "kismet_cache".to_string());
+        if config.opts.crate_name.as_deref() != Some(want.as_str()) {
+            return;
+        }
+        if let (Ok(sp), rustc_session::config::Input::File(root)) = (std::env::var("KFACTS_SHIMS"), &config.input) {
+            if let Ok(shims) = std::fs::read_to_string(&sp) {
+                config.file_loader = Some(Box::new(ShimLoader { root: root.clone(), shims }));
+            }
+        }
+    }
+
     fn after_analysis<'tcx>(
         &mut self,
         _compiler: &rustc_interface::interface::Compiler,
